@@ -27,7 +27,9 @@ type URIHdrsLst struct {
 
 // Reset re-initializes the parsed parameter list
 func (l *URIHdrsLst) Reset() {
-	for i := 0; i < l.HNo(); i++ {
+	// also reset the header in progress (Hdrs[N]): an abandoned parse
+	// leaves it half-filled
+	for i := 0; i < len(l.Hdrs) && i <= l.N; i++ {
 		l.Hdrs[i].Reset()
 	}
 	t := l.Hdrs
